@@ -66,7 +66,10 @@ def _worker(args: tuple) -> dict:
     logging.disable(logging.CRITICAL)
     warnings.simplefilter("ignore")
     mod = importlib.import_module(mod_name)
+    known_sigs = {f["signature"] for f in load_known().get("findings", []) if f.get("property") == mod.ID}
+    sig_fn = getattr(mod, "signature", None)
     agg: dict[str, Any] = {
+        "known": {},
         "wid": wid,
         "evaluations": 0,
         "discards": {},
@@ -122,10 +125,17 @@ def _worker(args: tuple) -> dict:
             agg["sigs"].add(res["sig"])
             if len(agg["samples"]) < 2:
                 agg["samples"].append(_sample(mod, doc, res))
-        if res["violations"]:
+        fresh = []
+        for cls, detail in res["violations"]:
+            sg = sig_fn(doc, cls, detail) if sig_fn else cls
+            if sg in known_sigs:
+                agg["known"][sg] = agg["known"].get(sg, 0) + 1
+            else:
+                fresh.append((cls, detail))
+        if fresh:
             agg["n_violating"] += 1
             if agg["violation"] is None:
-                cls, detail = res["violations"][0]
+                cls, detail = fresh[0]
                 agg["violation"] = {"doc": doc, "class": cls, "detail": jsonable(detail), "index": j, "hdigest": res["hdigest"]}
                 if tier == "quick":
                     break
@@ -287,6 +297,27 @@ def run_check(mod: Any, tier: str, seed: int, *, workers: int | None = None, cou
 
     violations_out: list[dict] = []
     known_lines: list[str] = []
+    known_seen: dict[str, int] = {}
+    for a in aggs:
+        add_stats(known_seen, a.get("known", {}))
+    for f in load_known().get("findings", []):
+        if f.get("property") != mod.ID:
+            continue
+        # re-run the recorded minimal case: the finding is reported only while it still fails
+        still = False
+        fdoc = f.get("doc")
+        if fdoc is not None:
+            try:
+                fres = mod.run_case(fdoc)
+                sig_fn0 = getattr(mod, "signature", None)
+                still = any((sig_fn0(fdoc, c, d) if sig_fn0 else c) == f["signature"] for c, d in fres["violations"])
+            except BaseException:  # noqa: BLE001
+                still = False
+        n_seen = known_seen.get(f["signature"], 0)
+        if still or n_seen:
+            known_lines.append(f"KNOWN-FINDING: property={mod.ID} {f.get('what', f['signature'])} [signature={f['signature']} recorded_case_still_fails={still} seen_in_this_run={n_seen}]")
+        else:
+            print(f"NOTE property={mod.ID} listed finding {f['signature']} did not reproduce in this run (recorded case passes)")
     viols = sorted((a for a in aggs if a["violation"] is not None), key=lambda a: (a["wid"], a["violation"]["index"]))
     seen_sigs: set = set()
     shrink_budget = 45.0 if tier == "quick" else 120.0
@@ -305,7 +336,8 @@ def run_check(mod: Any, tier: str, seed: int, *, workers: int | None = None, cou
         confirmed = confirm_replay(mod, rp)
         kf = match_known(mod.ID, sig)
         if kf is not None:
-            known_lines.append(f"KNOWN-FINDING: property={mod.ID} {kf.get('what', sig)}")
+            if not any(f"signature={sig} " in ln for ln in known_lines):
+                known_lines.append(f"KNOWN-FINDING: property={mod.ID} {kf.get('what', sig)} [signature={sig} seen_after_shrinking]")
             continue
         violations_out.append({"class": v["class"], "replay": rp, "confirmed": confirmed, "signature": sig, "detail": jsonable(info["detail"])})
 
@@ -332,7 +364,7 @@ def run_check(mod: Any, tier: str, seed: int, *, workers: int | None = None, cou
 
 
 def write_replay(mod: Any, doc: dict, cls: str, info: dict, seed: int, tries: int, sig: str) -> str:
-    d = os.path.join(VERIF, "replays")
+    d = os.environ.get("HGSIM_REPLAY_DIR") or os.path.join(VERIF, "replays")
     os.makedirs(d, exist_ok=True)
     body = {
         "property": mod.ID,
@@ -384,7 +416,7 @@ def replay(mod: Any, path: str) -> int:
 
 
 def write_evidence(mod, tier, seed, total, sigs, shapes, scheds, samples, wall, violations_out, known_lines, harness_error, capped, workers) -> None:
-    d = os.path.join(VERIF, "evidence")
+    d = os.environ.get("HGSIM_EVIDENCE_DIR") or os.path.join(VERIF, "evidence")
     os.makedirs(d, exist_ok=True)
     ev = total["evaluations"]
     hours = max(wall, 1e-9) / 3600.0
